@@ -65,9 +65,9 @@ theorem alookup_none_iff {α : Type} (k : Str) (xs : List (Str × α)) :
 
 /-- a character that may occur in a header segment -/
 def okChar (c : Char) : Bool :=
-  c != '.' && c != ':' && c != '=' && c != '*' && !pyWs c
+  c != '.' && c != ':' && c != '=' && c != '*' && !pyWs c && c != '{' && c != Cell.tmpC
 
-/-- a header segment: non-empty, no `.`, `:`, `=`, `*`, no whitespace -/
+/-- a header segment: non-empty, no `.`, `:`, `=`, `*`, `{`, U+0001, no whitespace -/
 def simpleName (n : Str) : Bool := !n.isEmpty && n.all okChar
 
 /-- a (dotted) header: like a segment, but `.` allowed -/
@@ -75,7 +75,7 @@ def keyChar (c : Char) : Bool := c != ':' && c != '=' && c != '*' && !pyWs c
 
 theorem okChar_keyChar {c : Char} (h : okChar c = true) : keyChar c = true := by
   simp [okChar, keyChar] at h ⊢
-  obtain ⟨⟨⟨⟨h1, h2⟩, h3⟩, h4⟩, h5⟩ := h
+  obtain ⟨⟨⟨⟨⟨⟨h1, h2⟩, h3⟩, h4⟩, h5⟩, h6⟩, h7⟩ := h
   exact ⟨⟨⟨h2, h3⟩, h4⟩, h5⟩
 
 theorem takeWhile_all {α : Type} (p : α → Bool) : ∀ (l : List α), (∀ x ∈ l, p x = true) → l.takeWhile p = l
@@ -133,7 +133,7 @@ theorem splitDot_append : ∀ (a b : Str), (∀ c ∈ a, c ≠ '.') →
 theorem simpleName_no_dot {n : Str} (h : simpleName n = true) : ∀ c ∈ n, c ≠ '.' := by
   intro c hc
   simp [simpleName, okChar] at h
-  exact (h.2 c hc).1.1.1.1
+  exact (h.2 c hc).1.1.1.1.1.1
 
 theorem simpleName_keyChar {n : Str} (h : simpleName n = true) : ∀ c ∈ n, keyChar c = true := by
   intro c hc
@@ -511,7 +511,8 @@ theorem parseEntry_top_single {fs : List Field} {n : Str} {ty : Ty} {d : Option 
     parseEntry (plainTop fs) (.dict kvs) (n, Sum.inl text) = .ok (.dict (kvs ++ [(n, tr)])) := by
   unfold parseEntry
   simp only [getFieldName_key n (simpleName_keyChar hn), splitDot_simple n (simpleName_no_dot hn)]
-  simp only [findSet, isListTy, Bool.false_eq_true, if_false, remap_nil, hf, hk, hl, ha]
+  simp only [findSet, isListTy, Bool.false_eq_true, if_false, remap_nil, hf, hk, hl, ha, ensureKey,
+    leafDict]
   rw [aset_of_absent n Tree.none kvs hk, aset_last n Tree.none tr kvs hk]
 
 theorem fieldRT_single {lay : Layout} {fs : List Field} {n : Str} {ty : Ty} {d : Option Val}
